@@ -8,8 +8,9 @@ def idx? (n : Nat) (t : Term) : Option Nat := do
   let i ← asNat? t
   if i < n then some i else none
 
-/-- is the prefix (as the model holds it: prefix, slot = 2 * shard + family) an IPv6 one? -/
-def isV6 (p : Net × Nat) : Bool := p.2 % 2 = 1
+/-- is the prefix (as the model holds it: prefix, slot = 3 * shard + family) an IPv6 / a VPNv4 one? -/
+def isV6 (p : Net × Nat) : Bool := p.2 % 3 = 1
+def isVpn (p : Net × Nat) : Bool := p.2 % 3 = 2
 
 def opOf? (srcs : List Source) (pfxs : List (Net × Nat)) (naset npol : Nat) (pre : Bool) : Term → Option Op
   | .list [.atom "ann", s, p, rpid, a, nh] => do
@@ -23,6 +24,7 @@ def opOf? (srcs : List Source) (pfxs : List (Net × Nat)) (naset npol : Nat) (pr
       | .v4 _, false => pure (.ann (← idx? nsrc s) p (← nat32? rpid) (← idx? naset a) nh)
       | .v6 _, true => pure (.ann (← idx? nsrc s) p (← nat32? rpid) (← idx? naset a) nh)
       | _, _ => none
+  | .atom "rtceor" => if pre then none else some .rtceor
   | .list [.atom "wd", s, p, rpid] => do let nsrc := srcs.length; pure (.wd (← idx? nsrc s) (← idx? pfxs.length p) (← nat32? rpid))
   | .list [.atom "down", s] => do pure (.down (← idx? srcs.length s))
   | .list [.atom "llgr", s] => do
@@ -50,18 +52,26 @@ def opOf? (srcs : List Source) (pfxs : List (Net × Nat)) (naset npol : Nat) (pr
 
 /-- `(addr len shard)` an IPv4 prefix, `(6 addr len shard)` an IPv6 one (addresses from 2^32 up, so
     that the two families do not meet as numbers).  Every shard has one RIB per family with its own
-    id allocator: the model keeps them as two shards, slot `2 * shard + family`. -/
+    id allocator: the model keeps them as separate shards, slot `3 * shard + family`; `(v rd addr len shard)` is a VPNv4 prefix (third family). -/
 def pfxOf? (k : Nat) : Term → Option (Net × Nat)
   | .list [a, l, s] => do
       let a ← nat32? a
       let l ← asNat? l
       let s ← asNat? s
-      if l ≤ 32 ∧ s < k ∧ a % 2 ^ (32 - l) = 0 then some ((a, l), 2 * s) else none
+      if l ≤ 32 ∧ s < k ∧ a % 2 ^ (32 - l) = 0 then some ((a, l), 3 * s) else none
   | .list [.atom "6", a, l, s] => do
       let a ← asNat? a
       let l ← asNat? l
       let s ← asNat? s
-      if a < U128 ∧ U32 ≤ a ∧ l ≤ 128 ∧ s < k ∧ a % 2 ^ (128 - l) = 0 then some ((a, l), 2 * s + 1) else none
+      if a < VPN_BASE ∧ U32 ≤ a ∧ l ≤ 128 ∧ s < k ∧ a % 2 ^ (128 - l) = 0 then some ((a, l), 3 * s + 1) else none
+  | .list [.atom "v", rd, a, l, s] => do
+      -- VPNv4: route distinguisher 65000:rd (type 0), one label
+      let rd ← nat32? rd
+      let a ← nat32? a
+      let l ← asNat? l
+      let s ← asNat? s
+      if l ≤ 32 ∧ s < k ∧ a % 2 ^ (32 - l) = 0 then
+        some ((VPN_BASE + (65000 * U32 + rd) * U32 + a, l), 3 * s + 2) else none
   | _ => none
 
 def polNoNh : Option Policy → Bool
@@ -86,7 +96,7 @@ def secondOf? (c : Case01) (dual : Bool) : Term → Option (Option Case01)
 /-- the case as seen by the first observing neighbour, and by the second one if there is one -/
 def casesOf? : Term → Option (Case01 × Option Case01)
   | .list [.atom "c01", .list [.atom "shards", k], ctx, sess, .list [.atom "pol0", pol], .list [.atom "gpol0", gpol],
-           .list [.atom "imp", imp], .list [.atom "nbr2", nbr2],
+           .list [.atom "imp", imp], .list [.atom "nbr2", nbr2], .list [.atom "rtc", rtc],
            .list (.atom "srcs" :: srcs), .list (.atom "pfxs" :: pfxs), .list (.atom "asets" :: asets),
            .list (.atom "pols" :: pols), .list (.atom "pre" :: pre), .list (.atom "ops" :: ops)] => do
       let k ← asNat? k
@@ -107,13 +117,24 @@ def casesOf? : Term → Option (Case01 × Option Case01)
         | _ => none
       -- IPv6 prefixes only towards receivers whose next hop is left alone (the session has one
       -- local address) and with policies that do not set one
-      let dual := pfxs.any isV6
+      let rtc ← match rtc with
+        | .atom "off" => some none
+        | .atom "all" => some (some RtcInterest.all)
+        | .list (.atom "rts" :: l) => do
+            let l ← l.mapM asBytes?
+            if l.all (fun x => x.length = 8) then some (some (RtcInterest.rts l)) else none
+        | _ => none
+      -- VPN prefixes and the End-of-RIB operation belong to RTC sessions; those have one observer
+      if (pfxs.any isVpn && rtc.isNone) then none else
+      let dual := pfxs.any isV6 || pfxs.any isVpn
       if dual && !((s.ctx.role = .ibgp ∨ s.ctx.role = .rrClient ∨ s.ctx.role = .rsClient) &&
                    polNoNh ppol && polNoNh gpol && pols.all polNoNh) then none else
       let pre ← pre.mapM (opOf? srcs pfxs asets.length pols.length true)
       let ops ← ops.mapM (opOf? srcs pfxs asets.length pols.length false)
-      let c : Case01 := ⟨2 * k, s, ppol, gpol, srcs, pfxs, asets, pols, imp, pre, ops⟩
+      if rtc.isNone && ops.any (fun op => op = .rtceor) then none else
+      let c : Case01 := ⟨3 * k, s, ppol, gpol, srcs, pfxs, asets, pols, imp, rtc, pre, ops⟩
       let c2 ← secondOf? c dual nbr2
+      if rtc.isSome && c2.isSome then none else
       pure (c, c2)
   | _ => none
 
